@@ -214,6 +214,41 @@ mod verif_nx_lex {
                         assert!(t.1.is_empty(), "OB lexnx/tokspec_eof_empty: the end-of-file token has no content (trailing blanks are its leading part)\n input={:?} token={:?}", text, t);
                     }
                 }
+                // C13 second sentence on the same texts: extents and kinds of comments and single-line literals by
+                // the Delphi rules (a comment ends at its FIRST closer / before the first line break; an unterminated
+                // block comment runs to the end of the text minus trailing blanks; a literal that holds a line break
+                // opens with an odd run of >= 3 quotes directly followed by a line break)
+                let mut pos = 0usize;
+                for t in &toks {
+                    let start = pos + t.0.len();
+                    pos = start + t.1.len();
+                    let c = t.1.as_str();
+                    let rest = &text[start..];
+                    let to_end = rest.trim_end_matches(is_blank_char).len();
+                    let opens_block = (c.starts_with('{') && !c.starts_with("{$")) || (c.starts_with("(*") && !c.starts_with("(*$"));
+                    if c.starts_with("//") || opens_block {
+                        assert!(matches!(t.2, TT::Comment(_)), "OB lexnx/tokspec_comment_kind: a token that opens with //, {{ or (* (and no $) is a comment\n input={:?} token={:?}", text, t);
+                    }
+                    if let TT::Comment(_) = t.2 {
+                        let expect = if c.starts_with("//") {
+                            rest.find(['\n', '\r']).unwrap_or(rest.len())
+                        } else if c.starts_with("(*") {
+                            rest[2..].find("*)").map(|i| i + 4).unwrap_or(to_end)
+                        } else if c.starts_with('{') {
+                            rest.find('}').map(|i| i + 1).unwrap_or(to_end)
+                        } else {
+                            panic!("OB lexnx/tokspec_comment_kind: a comment opens with //, {{ or (*\n input={:?} token={:?}", text, t)
+                        };
+                        assert!(c.len() == expect, "OB lexnx/tokspec_comment_extent: a comment ends directly after its first closer (line comment: before the first line break; unterminated: at the end of the text minus trailing blanks)\n input={:?} token={:?} expected_len={}", text, t, expect);
+                    }
+                    if let TT::TextLiteral(_) = t.2 {
+                        if c.contains(['\n', '\r']) {
+                            let q = c.bytes().take_while(|b| *b == b'\'').count();
+                            let after = c.as_bytes().get(q).copied();
+                            assert!(q >= 3 && q % 2 == 1 && (after == Some(b'\n') || after == Some(b'\r')), "OB lexnx/tokspec_literal_single_line: only a literal that opens with an odd run of >= 3 quotes directly followed by a line break may hold a line break\n input={:?} token={:?}", text, t);
+                        }
+                    }
+                }
                 // next index vector
                 let mut k = len;
                 let mut done = true;
